@@ -170,6 +170,7 @@ func (s *Sim) fireDue() int {
 		}
 		if best.fn != nil {
 			f := best.fn
+			s.TickLog = append(s.TickLog, s.now)
 			s.spawnTimerFunc(f)
 		} else {
 			select {
